@@ -66,6 +66,11 @@ func (r *Raft) replyRPC(rpc *rpc) (resetTimer bool) {
 	if result == unexpectedErr {
 		panic(err)
 	}
+	if rpc.req.rpcType().fromLeader() && rpc.req.from() == r.leader {
+		// the connection the leader replicates over: only its loss says
+		// something about the leader (see the disconnected case of stateLoop)
+		r.leaderConn = rpc.conn
+	}
 	return rpc.req.rpcType() != rpcVote || result == success
 }
 
